@@ -416,9 +416,14 @@ let run_monitor (id : string) (case : string list) (result : string) : string =
                     | _ -> "other")) :: !bad) os;
           if not (order_ok !cur st.st_calls os) then
             bad := (k, "ipdel-after-ipadd-of-an-address-the-host-has") :: !bad;
+          (* the last word about an address is IpDel although the OS table has it on an enabled entry *)
+          List.iter (fun a -> bad := (k, "del-of-held-address-" ^ string_of_ip a) :: !bad)
+            (List.sort_uniq compare (List.filter_map (fun o -> match o with
+                 | OIpDel a when del_of_held !cur states os a -> Some a | _ -> None) os));
           sels := final) hist;
       let bad = List.rev !bad in
-      let cls w = if starts_with w "selection-while-absent-" then "selection-while-absent" else "" in
+      let cls w = if starts_with w "selection-while-absent-" then "selection-while-absent"
+        else if starts_with w "del-of-held-address-" then "del-of-held-address" else "" in
       let classes = List.sort_uniq compare (List.map (fun (_, w) -> cls w) bad) in
       (if List.mem "" classes then "FAIL " else "FAIL known=" ^ String.concat "+" classes ^ " ")
       ^ String.concat " " (List.map (fun (k, w) -> Printf.sprintf "it%d:%s" k w) bad)
